@@ -102,7 +102,7 @@ class PuritySim:
             self.in_schedule = list(case["schedule"])
         else:
             self.knobs = self.gen_knobs()
-            self.recipe = gen.gen_purity_world(self.streams["world"], self.streams["values"], self.knobs)
+            self.recipe = self._gen_world()
             self.in_schedule = None
         self.schedule = []
         self.stats = {
@@ -119,8 +119,12 @@ class PuritySim:
         self.node_counter = 0
         self.derived_from = {}
         self.cache_fp = {}
+        self.tainted = set()
 
     # -- knobs ------------------------------------------------------------------------------------
+
+    def _gen_world(self):
+        return gen.gen_purity_world(self.streams["world"], self.streams["values"], self.knobs)
 
     def gen_knobs(self):
         r = self.streams["world"]
@@ -158,6 +162,17 @@ class PuritySim:
             return False
         self.violation = v
         raise StopRun()
+
+    def is_tainted(self, nid, _seen=None):
+        """A node (or anything it was built from) holds a value the library computed through a fallback path because an
+        injected solver error was absorbed instead of raised: a legitimately different evaluation, so not compared."""
+        if nid in self.tainted:
+            return True
+        _seen = _seen or set()
+        if nid in _seen:
+            return False
+        _seen.add(nid)
+        return any(self.is_tainted(d, _seen) for d in self.world.passed.get(nid, []))
 
     def nodes_by_type(self):
         out = {}
@@ -406,10 +421,19 @@ class PuritySim:
             del self.hot[:-12]
         if shim is not None and shim.fired:
             self.stats["faults_fired"]["solver_fail"] = self.stats["faults_fired"].get("solver_fail", 0) + 1
-            self.recovering.add(key)
+            if tree[0] == "exc":
+                self.recovering.add(key)
+            else:
+                self.tainted.add(target)
+                self.probe("injected_solver_error_absorbed_by_fallback")
             self.log.append(ev="read", target=target, type=tn, q=label, outcome="fault:" + compare.digest(tree), fault="solver_fail")
             self.uncheck("read_during_solver_fault")
             self.after_event(f"read:{tn}.{label} (solver fault)")
+            return True
+        if self.is_tainted(target) or any(self.is_tainted(a) for a in catalog.q_nodes(q)):
+            self.log.append(ev="read", target=target, type=tn, q=label, outcome=compare.digest(tree))
+            self.uncheck("after_absorbed_solver_fault")
+            self.after_event(f"read:{tn}.{label}")
             return True
         # ---- I2: refinement against the pristine twin
         if key in self.memo:
